@@ -133,6 +133,33 @@ def explore(ctx):
                         bad, c.doc_type), dict(L.describe(c), key='unreachable-construction:' + c.text[:60]))
             if called:
                 ctx.violation('os.system was called while loading', dict(L.describe(c), key='os.system'))
+            if c.desc and c.desc[0] == 'untyped-region' and c.doc is not None and ctx.rng.random() < 0.6:
+                # every tag on a COLLECTION inside an untyped region is ignored: the same document with those
+                # tags removed has the same outcome (an equal value, or a failure of the same kind)
+                def untag(d):
+                    if d[0] == 'q':
+                        return ('q', [untag(x) for x in d[1]], None)
+                    if d[0] == 'm':
+                        return ('m', [(untag(k), untag(v)) for k, v in d[1]], None)
+                    return d
+                doc2 = untag(c.doc)
+                if doc2 != c.doc:
+                    try:
+                        c3 = L.build_case(ctx.rng, yaml, yatiml, c.spec, c.doc_type, doc2, ('untagged-twin',))
+                        L.run_case(c3, yaml)
+                    except Exception:  # noqa
+                        c3 = None
+                    if c3 is not None:
+                        ctx.count('collection_tag_twins')
+
+                        def outcome(cc):
+                            if cc.real_out[0] == 'ok':
+                                return ('ok', CM.val_sexp(cc.real_out[1], cc.model))
+                            return (cc.real_out[0],)
+                        if outcome(c) != outcome(c3):
+                            ctx.violation('a tag on a collection inside an untyped region is not ignored: with the tags the '
+                                          'outcome is {}, without them {}'.format(str(outcome(c))[:150], str(outcome(c3))[:150]),
+                                          dict(L.describe(c), key='collection-tag:' + c.text[:60], without=c3.text[:400]))
                 del called[:]
             if CANARY in sys.modules:
                 ctx.violation('module {} was imported while loading'.format(CANARY),
